@@ -167,6 +167,53 @@ def judge_behave(chk, c, obs, dropped):
     chk.sample({"trait": t, "configuration_a": c.text, "configuration_b": c.info["other"], "values": n}, limit=3)
 
 
+ENTRY_TRAITS = {"Debug": "::core::fmt::Debug for", "Clone": "::core::clone::Clone for", "PartialEq": "::core::cmp::PartialEq for",
+                "Hash": "::core::hash::Hash for", "Default": "::core::default::Default for"}
+
+
+def entry_point_pairs(chk, seed):
+    """through rustc and the REAL derive entry point (the in-process hook bypasses it): the impl block of t — with the
+    attributes in front of it — is the same whether t is educed alone or after other traits"""
+    from .. import unpretty as UP
+    rng = rng_for(seed, PROP, "entry")
+    shapes = ["pub struct S {\n    pub a: u8,\n    pub b: u16,\n}\n", "pub struct S<T>(pub T, pub u8);\n",
+              "pub enum S {\n    #[educe(Default)]\n    A(u8),\n    B {\n        x: u16,\n    },\n    C,\n}\n"]
+    parts = ["#![allow(dead_code, unused)]\nuse educe::Educe;\n"]
+    plan = []
+    k = 0
+    for t in ENTRY_TRAITS:
+        for shape in shapes:
+            others = [o for o in rng.sample([x for x in ENTRY_TRAITS if x != t], rng.randint(1, 3))]
+            pos = rng.randrange(len(others) + 1)
+            lst = others[:pos] + [t] + others[pos:]
+            if "Default" not in lst:
+                shape_ = shape.replace("    #[educe(Default)]\n", "")
+            else:
+                shape_ = shape
+            alone_shape = shape if t == "Default" else shape.replace("    #[educe(Default)]\n", "")
+            parts.append("pub mod alone_%d {\nuse super::*;\n#[derive(Educe)]\n#[educe(%s)]\n%s}\n" % (k, t, alone_shape))
+            parts.append("pub mod with_%d {\nuse super::*;\n#[derive(Educe)]\n#[educe(%s)]\n%s}\n" % (k, ", ".join(lst), shape_))
+            plan.append((k, t, lst))
+            k += 1
+    src = "".join(parts)
+    mods = UP.modules(UP.expand("c15u", src))
+    norm = lambda b: " ".join(b.split())
+    for k, t, lst in plan:
+        a = [blk for hdr, blk in UP.impl_blocks(mods.get("alone_%d" % k, "")) if ENTRY_TRAITS[t] in hdr]
+        w = [blk for hdr, blk in UP.impl_blocks(mods.get("with_%d" % k, "")) if ENTRY_TRAITS[t] in hdr]
+        if len(a) != 1 or len(w) != 1:
+            chk.inconc("unpretty-output-not-understood")
+            continue
+        chk.evaluations += 1
+        if norm(a[0]) != norm(w[0]):
+            chk.violation("entry-point-depends-on-others|%s" % t, "through the real derive entry point the impl block of %s differs between "
+                          "`#[educe(%s)]` and `#[educe(%s)]`\n--- alone:\n%s\n--- with others:\n%s" % (t, t, ", ".join(lst), a[0], w[0]),
+                          {"crate.rs": src})
+            return
+        chk.count("entry-point-pairs-equal")
+    chk.held("entry:" + digest(src), True, 0)
+
+
 def main(tier, seed, scale=1.0):
     chk = Check(PROP, tier, seed)
     n = int((3000 if tier == "quick" else 60000) * scale)
@@ -225,6 +272,7 @@ def main(tier, seed, scale=1.0):
             chk.count(t)
             if len(foreign) >= 2:
                 chk.sample({"trait": t, "full": full, "reduced": part, "items_for_trait": sum(ia.values())}, limit=3)
+    entry_point_pairs(chk, seed)
     nb = int((720 if tier == "quick" else 12000) * scale)
     for k0 in range(0, nb, 480):
         bc = [c for c in (behave_case(seed, k) for k in range(k0, min(nb, k0 + 480))) if c is not None]
